@@ -10,5 +10,10 @@ int main(int argc, char** argv) {
     fprintf(stderr, "\n");
     return 64;
   }
-  return th::Registry::get()[argv[1]](argc - 1, argv + 1);
+  // the whole command runs on one thread with a 1 GB stack (sanitizer-inflated recursion in the parser / code generator
+  // must not fake a crash); creating such a thread per compilation is far too slow under ASan
+  int rc = 0;
+  auto fn = th::Registry::get()[argv[1]];
+  th::run_on_big_stack([&]() { rc = fn(argc - 1, argv + 1); });
+  return rc;
 }
